@@ -572,7 +572,7 @@ String Json::stripComments(const String& data)
       if (*src == '\\' && src[1])
       {
         *(dest++) = *(src++);
-        goto checkStr;
+        continue; // copies the escaped character
       }
       if (*src == '"')
       {
